@@ -2,9 +2,10 @@
    input  : SEQ  P <n> <entry>*n O <m> <op>*m
             CONC P <n> <entry>*n O <m> <mutop>*m
      entry: <kind> <codeI> <codeO> <inst> <beh> <nm> <mop>*nm
-            kind fi fo t ti to pi po bad ; beh P S E A F K
+            kind fi fo t ti to pi po bad ; beh P S E A F K Z
             a call whose context is done carries the marker 9001 / 9002 as its first token,
-            then 8001 / 8002 when the method called is fail / boom
+            then 8001 / 8002 when the method called is fail / boom, then 7001..7007 for a scripted
+            transport fault
      mop  : U|X c|s <k> <ix>*k          op : mop | C <k> <tok>*k
    output : SEQ  : outcome of each op joined by " | ", then
                    " || final CI=.. CO=.. SO=.. SI=.. || lists CI=.. .. || specagree=<bool>"
@@ -16,7 +17,7 @@ let sn n = string_of_int (int_of_n n)
 
 let beh_of = function
   | "P" -> Onion.BPass | "S" -> Onion.BShortOk | "E" -> Onion.BShortErr
-  | "A" -> Onion.BAlter | "F" -> Onion.BErrAfter | "K" -> Onion.BCancel | s -> failwith ("beh " ^ s)
+  | "A" -> Onion.BAlter | "F" -> Onion.BErrAfter | "K" -> Onion.BCancel | "Z" -> Onion.BShortClosed | s -> failwith ("beh " ^ s)
 
 let node_of = function "c" -> Onion.NClient | "s" -> Onion.NService | s -> failwith ("node " ^ s)
 
